@@ -5,6 +5,7 @@ import VsbModel.Model.Sync
 import VsbModel.Model.Rotate
 import VsbModel.Model.Dedup
 import VsbModel.Model.Metadata
+import VsbModel.Model.Verify
 
 /-!
 Line-protocol driver for the executable models: one request per line `<op> <json>`, one JSON
@@ -270,6 +271,48 @@ def opMdparse (j : Json) : Except String Json := do
         ("size", toString d.size), ("path", String.ofList d.path)])
   | none => pure Json.null
 
+/-! ## verify / age / duration -/
+open Vsb.Listing Vsb.Verify Vsb.Dedup in
+/-- `verify`: {storage, manifests: {"<group>/<backup>": {recs:[{unique,hash,size}], complete}}} →
+listing verdict, per-group inspection, overall `ok` of `get_backup_groups(true)`. -/
+def opVerify (j : Json) : Except String Json := do
+  let st ← parseStorage (← j.getObjVal? "storage")
+  let mans ← j.getObjVal? "manifests"
+  match listRoot localTraits st with
+  | .err => pure (Json.mkObj [("result", "err")])
+  | .ok gs lok logs =>
+    let groups ← gs.mapM (fun g => g.backups.mapM (fun b => do
+      match mans.getObjVal? (g.name ++ "/" ++ b) with
+      | .error _ => pure ({ recs := [], complete := false } : Manifest String Unit Unit)
+      | .ok m => do
+        let recs ← (← (← m.getObjVal? "recs").getArr?).toList.mapM (fun r => do
+          pure ({ unique := (← (← r.getObjVal? "unique").getBool?), hash := (← (← r.getObjVal? "hash").getStr?),
+                  fp := (), size := (← (← r.getObjVal? "size").getNat?), path := () } : Rec String Unit Unit))
+        pure ({ recs := recs, complete := (← (← m.getObjVal? "complete").getBool?) } : Manifest String Unit Unit)))
+    pure (Json.mkObj [("result", "ok"), ("list_ok", lok), ("ok", verifyOk lok groups),
+      ("groups_ok", Json.arr (groups.map (fun g => Json.bool (inspectGroup g))).toArray),
+      ("logs", Json.arr (logs.map logJson).toArray)])
+
+open Vsb.Verify in
+def opAge (j : Json) : Except String Json := do
+  let groups ← (← (← j.getObjVal? "groups").getArr?).toList.mapM (fun g => do
+    (← g.getArr?).toList.mapM (fun b => match b with
+      | .null => pure none
+      | b => do pure (some (← b.getNat?))))
+  let now ← (← j.getObjVal? "now").getNat?
+  let maxAge ← optNat j "max_age"
+  let v := checkBackups groups now maxAge
+  let s := match v with
+    | .noBackups => "no-backups" | .noThreshold => "no-threshold" | .badName => "bad-name"
+    | .future => "future" | .fresh => "fresh" | .stale _ => "stale"
+  pure (Json.mkObj [("verdict", s), ("alarm", v.isAlarm)])
+
+open Vsb.Verify in
+def opDuration (j : Json) : Except String Json := do
+  match parseDuration (← (← j.getObjVal? "s").getStr?) with
+  | some n => pure (n : Json)
+  | none => pure Json.null
+
 def dispatch (op : String) (j : Json) : Except String Json :=
   match op with
   | "split" => opSplit j
@@ -279,6 +322,9 @@ def dispatch (op : String) (j : Json) : Except String Json :=
   | "list" => opList j
   | "rotate" => opRotate j
   | "dedup" => opDedup j
+  | "verify" => opVerify j
+  | "age" => opAge j
+  | "duration" => opDuration j
   | "mdline" => opMdline j
   | "mdparse" => opMdparse j
   | _ => .error s!"unknown op {op}"
